@@ -163,7 +163,7 @@ def h32(*parts):
     return zlib.crc32(repr(parts).encode())
 
 
-def step(root, scratch, src_model, lab, dst_model, src_ans, seed=0, who=None, light=True, want_n=True, n_cache=None):
+def step(root, scratch, src_model, lab, dst_model, src_ans, seed=0, who=None, opts=None, light=True, want_n=True, n_cache=None):
     """Execute one transition on the repository at root (in place) and observe it.
 
     Returns a dict: who, opts, shape (list of str), viol (list of (site, clause, qkind, cause, detail)),
@@ -174,7 +174,8 @@ def step(root, scratch, src_model, lab, dst_model, src_ans, seed=0, who=None, li
     hv = h32(seed, json.dumps(src_model, sort_keys=True), lab)
     if who is None:
         who = "wx"[hv & 1]
-    opts = (hv >> 1) & 7
+    if opts is None:
+        opts = (hv >> 1) & 7
     res = {"lab": lab, "who": who, "opts": opts, "shape": [], "viol": [], "ans": None, "ans_n": None}
     w = Repo(X.R(root))
     try:
@@ -243,8 +244,13 @@ def step(root, scratch, src_model, lab, dst_model, src_ans, seed=0, who=None, li
 
     for q, (key, va, vb) in diff_answers(af, an).items():
         res["viol"].append((SITE[q], "with!=without", q, cause_for(q, af), f"query {q}[{key}]: with {va!r} without {vb!r}"))
-    for q, (key, va, vb) in diff_answers(aw, an).items():
-        if q in diff_answers(af, an):
+    # the long-lived reader may keep serving objects of a pack it still holds open after somebody pruned them
+    # (that is its pack cache, not acceleration data): compare it on the objects that are still there
+    present = set(dst_model["loose"]) | {i for p in dst_model["packs"] for i in p}
+    awr, anr = restrict(aw, present), restrict(an, present)
+    fresh_bad = diff_answers(af, an)
+    for q, (key, va, vb) in diff_answers(awr, anr).items():
+        if q in fresh_bad:
             continue                      # already reported for the fresh reader
         doer = "self" if who == "w" else "other"
         res["viol"].append((SITE[q], "warm!=without", q, f"{doer}-did:{act}",
